@@ -97,6 +97,19 @@ func (w *World) Exec(op Op) bool {
 		}
 		w.tracef("MARK %d", op.A)
 		return true
+	case OReopenResize:
+		if w.Tx != nil {
+			if !w.End(OClose) {
+				return false
+			}
+		}
+		minPages := 64 * 1024 / int(w.Cfg.PageSize)
+		sizes := []int{0, minPages, minPages + 9, minPages + 64, minPages + 200}
+		rs := resizeSpec{OldPages: w.Cfg.MaxPages, NewPages: sizes[op.A%len(sizes)], Prealloc: op.B%2 == 1}
+		if rs.NewPages == rs.OldPages {
+			rs.NewPages = sizes[(op.A+1)%len(sizes)]
+		}
+		return w.reopenResized(rs)
 	case OProbe:
 		if w.Tx != nil || w.Cfg.MaxPages == 0 {
 			return true
